@@ -21,6 +21,23 @@ func VerifDir() string {
 	return "/verif"
 }
 
+// OutDir is where evidence and replay files go: VerifDir unless VERIF_OUT overrides it (development aid).
+func OutDir() string {
+	if d := os.Getenv("VERIF_OUT"); d != "" {
+		return d
+	}
+	return VerifDir()
+}
+
+// RepoDir is /repo unless VERIF_REPO overrides it (used only by development tooling that runs the
+// checks against a scratch copy of the repository; the registered commands always use /repo).
+func RepoDir() string {
+	if d := os.Getenv("VERIF_REPO"); d != "" {
+		return d
+	}
+	return "/repo"
+}
+
 // ---- known findings -----------------------------------------------------------------
 
 type KFEntry struct {
@@ -153,7 +170,7 @@ func NewChecker(prop, tier, level string) *Checker {
 		os.Exit(2)
 	}
 	c.kf = kf
-	c.replayDir = filepath.Join(VerifDir(), "replays", prop)
+	c.replayDir = filepath.Join(OutDir(), "replays", prop)
 	c.maxPrint = 25
 	if os.Getenv("VERIF_TRIAGE") != "" {
 		c.triage, c.triageEx, c.maxPrint = map[string]int{}, map[string]string{}, 0
@@ -449,7 +466,7 @@ func (c *Checker) Finish() int {
 		ev["assumptions"] = []string{}
 	}
 	b, _ := json.MarshalIndent(ev, "", " ")
-	dir := filepath.Join(VerifDir(), "evidence")
+	dir := filepath.Join(OutDir(), "evidence")
 	os.MkdirAll(dir, 0o755)
 	if err := os.WriteFile(filepath.Join(dir, c.Prop+".json"), b, 0o644); err != nil {
 		HarnessError("cannot write evidence: %v", err)
